@@ -67,7 +67,7 @@ def replay(run, path):
         cases = [c for c in (cases or []) if c['op'] == op]
     elif kind == 'trace' and 'calls' in rec:
         from harness.checks import regfam as R
-        n = R.replay_and_validate(run, 'replay', [rec['calls']])
+        n = R.replay_and_validate(run, 'replay', [rec['calls']], pre=rec.get('prebuilt_context_managers'))
         run.evaluations += n
         run.nontrivial = {1, 2}
         return
